@@ -1164,7 +1164,7 @@ fn parse_mapping(mapping: &Mapping) -> crate::Result<Expression> {
                             } else {
                                 boolean = true;
                                 rest.push(Expression::BooleanExpression(
-                                    Box::new(e.clone()),
+                                    Box::new(unmatched_e.clone()),
                                     BoolSym::Equal,
                                     Box::new(Expression::Boolean(*b)),
                                 ))
@@ -1190,7 +1190,7 @@ fn parse_mapping(mapping: &Mapping) -> crate::Result<Expression> {
                                 } else {
                                     number = true;
                                     rest.push(Expression::BooleanExpression(
-                                        Box::new(e.clone()),
+                                        Box::new(unmatched_e.clone()),
                                         BoolSym::Equal,
                                         Box::new(Expression::Integer(i)),
                                     ));
@@ -1211,7 +1211,7 @@ fn parse_mapping(mapping: &Mapping) -> crate::Result<Expression> {
                                 } else {
                                     number = true;
                                     rest.push(Expression::BooleanExpression(
-                                        Box::new(e.clone()),
+                                        Box::new(unmatched_e.clone()),
                                         BoolSym::Equal,
                                         Box::new(Expression::Float(i)),
                                     ))
@@ -1313,7 +1313,7 @@ fn parse_mapping(mapping: &Mapping) -> crate::Result<Expression> {
                         Pattern::Equal(i) => {
                             number = true;
                             rest.push(Expression::BooleanExpression(
-                                Box::new(e.clone()),
+                                Box::new(unmatched_e.clone()),
                                 BoolSym::Equal,
                                 Box::new(Expression::Integer(i)),
                             ))
@@ -1321,7 +1321,7 @@ fn parse_mapping(mapping: &Mapping) -> crate::Result<Expression> {
                         Pattern::GreaterThan(i) => {
                             number = true;
                             rest.push(Expression::BooleanExpression(
-                                Box::new(e.clone()),
+                                Box::new(unmatched_e.clone()),
                                 BoolSym::GreaterThan,
                                 Box::new(Expression::Integer(i)),
                             ))
@@ -1329,7 +1329,7 @@ fn parse_mapping(mapping: &Mapping) -> crate::Result<Expression> {
                         Pattern::GreaterThanOrEqual(i) => {
                             number = true;
                             rest.push(Expression::BooleanExpression(
-                                Box::new(e.clone()),
+                                Box::new(unmatched_e.clone()),
                                 BoolSym::GreaterThanOrEqual,
                                 Box::new(Expression::Integer(i)),
                             ))
@@ -1337,7 +1337,7 @@ fn parse_mapping(mapping: &Mapping) -> crate::Result<Expression> {
                         Pattern::LessThan(i) => {
                             number = true;
                             rest.push(Expression::BooleanExpression(
-                                Box::new(e.clone()),
+                                Box::new(unmatched_e.clone()),
                                 BoolSym::LessThan,
                                 Box::new(Expression::Integer(i)),
                             ))
@@ -1345,7 +1345,7 @@ fn parse_mapping(mapping: &Mapping) -> crate::Result<Expression> {
                         Pattern::LessThanOrEqual(i) => {
                             number = true;
                             rest.push(Expression::BooleanExpression(
-                                Box::new(e.clone()),
+                                Box::new(unmatched_e.clone()),
                                 BoolSym::LessThanOrEqual,
                                 Box::new(Expression::Integer(i)),
                             ))
@@ -1353,7 +1353,7 @@ fn parse_mapping(mapping: &Mapping) -> crate::Result<Expression> {
                         Pattern::FEqual(i) => {
                             number = true;
                             rest.push(Expression::BooleanExpression(
-                                Box::new(e.clone()),
+                                Box::new(unmatched_e.clone()),
                                 BoolSym::Equal,
                                 Box::new(Expression::Float(i)),
                             ))
@@ -1361,7 +1361,7 @@ fn parse_mapping(mapping: &Mapping) -> crate::Result<Expression> {
                         Pattern::FGreaterThan(i) => {
                             number = true;
                             rest.push(Expression::BooleanExpression(
-                                Box::new(e.clone()),
+                                Box::new(unmatched_e.clone()),
                                 BoolSym::GreaterThan,
                                 Box::new(Expression::Float(i)),
                             ))
@@ -1369,7 +1369,7 @@ fn parse_mapping(mapping: &Mapping) -> crate::Result<Expression> {
                         Pattern::FGreaterThanOrEqual(i) => {
                             number = true;
                             rest.push(Expression::BooleanExpression(
-                                Box::new(e.clone()),
+                                Box::new(unmatched_e.clone()),
                                 BoolSym::GreaterThanOrEqual,
                                 Box::new(Expression::Float(i)),
                             ))
@@ -1377,7 +1377,7 @@ fn parse_mapping(mapping: &Mapping) -> crate::Result<Expression> {
                         Pattern::FLessThan(i) => {
                             number = true;
                             rest.push(Expression::BooleanExpression(
-                                Box::new(e.clone()),
+                                Box::new(unmatched_e.clone()),
                                 BoolSym::LessThan,
                                 Box::new(Expression::Float(i)),
                             ))
@@ -1385,7 +1385,7 @@ fn parse_mapping(mapping: &Mapping) -> crate::Result<Expression> {
                         Pattern::FLessThanOrEqual(i) => {
                             number = true;
                             rest.push(Expression::BooleanExpression(
-                                Box::new(e.clone()),
+                                Box::new(unmatched_e.clone()),
                                 BoolSym::LessThanOrEqual,
                                 Box::new(Expression::Float(i)),
                             ))
